@@ -304,6 +304,8 @@ class AsyncChannel(BaseChannel):
                     buf = b""
                 authenticate_buf += buf.lower()
 
+                self._ssh_message_handler(output=authenticate_buf)
+
                 if re.search(
                     pattern=password_pattern,
                     string=authenticate_buf,
